@@ -41,6 +41,7 @@ QUICK = [
     _k('scaled_fixed_storage_no_simult', mode='fixed', base='storage_no_simult', T=2),
     _k('structured', mode='struct', T=2),
     _k('structured_windows', mode='struct', T=3, inner_win=(0, 2), outer_win=(1, 3)),
+    _k('structured_two_external_nodes', mode='struct', T=2, two_external=True),
     _k('structured_end_only_windows', mode='struct', T=4, inner_win=(None, 3), outer_win=(None, 2)),
     _k('structured_start_only_windows', mode='struct', T=4, inner_win=(1, None), outer_win=(2, None)),
 ]
@@ -262,10 +263,10 @@ def clip(w_in, w_out):
     return (lo, hi)
 
 
-def build_struct(D, T, inner_win=None, outer_win=None, two_internal=False):
+def build_struct(D, T, inner_win=None, outer_win=None, two_internal=False, two_external=False):
     eao = lift.import_eao()
     # every inner asset carries a window when the wrapper has one (a wrapper window over window-less inner assets: KF-C08-structwin)
-    sh = shapes.pf_structured(D, T=T, inner_win=inner_win, outer_win=outer_win, two_internal=two_internal, inner_win_all=True)
+    sh = shapes.pf_structured(D, T=T, inner_win=inner_win, outer_win=outer_win, two_internal=two_internal, inner_win_all=True, two_external=two_external)
     tg = sh.tg
     nI, nE, nJ = shapes.nodes('I', 'E', 'J')
     # flat twin: same assets, inner windows clipped to the wrapper's window
@@ -276,7 +277,12 @@ def build_struct(D, T, inner_win=None, outer_win=None, two_internal=False):
     if two_internal:
         flat.append(shapes.mk_transport(D, 'itr2', nJ, nI, eff=None, costs=False, win=cw, tg=tg))
         flat.append(shapes.mk_market(D, 'imk', nJ, T, 'q', win=cw, tg=tg))
+    if two_external:
+        (nF,) = shapes.nodes('F')
+        flat.append(shapes.mk_transport(D, 'itrF', nI, nF, eff=None, win=cw, tg=tg))
     flat.append(shapes.mk_market(D, 'mE', nE, T, 'p'))
+    if two_external:
+        flat.append(shapes.mk_market(D, 'mF', nF, T, 'q'))
     return sh, eao.portfolio.Portfolio(flat)
 
 
@@ -289,11 +295,11 @@ def struct_rename(k):
     return (asset, vn, t)
 
 
-def run_struct(rec, seed, T, inner_win=None, outer_win=None, two_internal=False):
+def run_struct(rec, seed, T, inner_win=None, outer_win=None, two_internal=False, two_external=False):
     eao = lift.import_eao()
 
     def build(D):
-        sh, flat = build_struct(D, T, inner_win, outer_win, two_internal)
+        sh, flat = build_struct(D, T, inner_win, outer_win, two_internal, two_external)
         ops = sh.portf.setup_optim_problem(sh.prices, sh.tg)
         xs = common.sym_x(len(ops.c), 'x')
         outs = eao.io.extract_output(sh.portf, ops, eao.optimization.Results(value=Sym.var('value'), x=xs, duals=None))
@@ -331,14 +337,16 @@ def run_struct(rec, seed, T, inner_win=None, outer_win=None, two_internal=False)
         outf = eao.io.extract_output(flat, opf, eao.optimization.Results(value=Sym.var('value'), x=xf, duals=None))
         assume = base_as + Ps.feas(x)
         ds, df = outs['dispatch'], outf['dispatch']
-        scol = [c for c in ds.columns if c.startswith('struct')]
-        inner_cols = [c for c in df.columns if c.endswith('(E)') and not c.startswith('mE')]
-        if len(flat.nodes) == 1:
-            inner_cols = [c for c in df.columns if c != 'mE']
-        for t in range(sh.tg.T):
-            want = common.z3sum([df[c].values[t] for c in inner_cols])
-            got = common.z3sum([ds[c].values[t] for c in scol])
-            rec.prove(P + '/external_dispatch/%d' % t, assume, got == want, form='Q1', info=dict(kind='external', t=t))
+        ext_nodes = ['E'] + (['F'] if two_external else [])
+        for en in ext_nodes:
+            scol = [c for c in ds.columns if c.startswith('struct') and (c.endswith('(%s)' % en) or len(ext_nodes) == 1)]
+            inner_cols = [c for c in df.columns if c.endswith('(%s)' % en) and not c.startswith('m' + en)]
+            if len(flat.nodes) == 1:
+                inner_cols = [c for c in df.columns if c != 'mE']
+            for t in range(sh.tg.T):
+                want = common.z3sum([df[c].values[t] for c in inner_cols])
+                got = common.z3sum([ds[c].values[t] for c in scol])
+                rec.prove(P + '/external_dispatch%s/%d' % ('' if en == 'E' else '_' + en, t), assume, got == want, form='Q1', info=dict(kind='external', t=t, node=en))
         if not validated:
             from .. import obs
             names = list(D.names) + ['x%d' % i for i in range(Ps.n)]
